@@ -224,19 +224,26 @@ CLAIMS["C16"] = {
 
 CLAIMS["C18"] = {
     "text": "Machine-checked proof (Lean 4) over executable models of the parser (grammar.pest read as the PEG pest executes, plus the "
-            "AST construction) and of the formatter (fmt.rs function by function, including the blank-line state machine). Proved for "
-            "all inputs: every type the grammar can produce is written as text that parses back to the same type whatever follows it "
-            "(type_roundtrip, ref_roundtrip), likewise identifiers, integer / uuid / string literals; a written comment, doc or "
-            "inline-doc line is read back as one line of the same kind and never as another kind, with the inner text it was written "
-            "from, so writing it again gives the same line (comment_line_roundtrip, doc_line_roundtrip, inline_doc_line_roundtrip, "
-            "line_inner_stable). Tie: the real parser and formatter against the models on generated and damaged schema sources "
-            "(canonical AST dump and formatted text, syntax errors included), plus implementation-only oracles for the statement "
-            "itself: the formatted text parses, to the same schema (imports sorted), idempotently, with the same diagnostics.",
-    "note": "Trusted: Lean kernel (+propext, Classical.choice, Quot.sound), the harness, the reading of pest's semantics. Partial: the "
-            "round trip of whole definitions / services / the file and of the blank-line logic is not yet a theorem (tied by "
-            "correspondence and oracles); non-ASCII identifiers and the validator (errors, warnings) are not modelled.",
+            "AST construction) and of the formatter (fmt.rs function by function, including the blank-line state machine). Proved: for "
+            "EVERY well-formed schema AST (structs, enums, newtypes, consts of all kinds, services with functions in all body forms, "
+            "events, inline structs / enums, fallbacks, attributes, comments and doc strings everywhere, file prelude, imports) the "
+            "formatted text parses, without syntax error, to exactly the same schema with comment / doc lines in canonical form and "
+            "imports in the formatter's stable by-name order (format_parses_back, format_parses_back_checked; per definition: "
+            "definition_roundtrip, struct_/enum_/service_/const_/newtype_def_roundtrip; leaves: type_roundtrip, ref_roundtrip, "
+            "ident/int/uuid/string_roundtrip, comment/doc/inline_doc_line_roundtrip); the formatter's state (newline, first, last_def, "
+            "last_item) only ever decides which blank run is written (definition_written); writing a written line again gives the same "
+            "line (line_inner_stable). Well-formedness is an explicit predicate with an executable check proved sound "
+            "(validSchemaB_sound). Tie: the real parser and formatter against the models on generated and damaged schema sources "
+            "(canonical AST dump, formatted text, syntax errors), the model's evaluation of the theorem's premises and conclusion on "
+            "every parsed AST (sval lines), plus implementation-only oracles for the statement itself: formatted text parses, to the "
+            "same schema (imports sorted), idempotently, with the same diagnostics.",
+    "note": "Trusted: Lean kernel (+propext, Classical.choice, Quot.sound), the harness, the reading of pest's semantics. Partial: that "
+            "every AST the parser returns is well formed and that input length + 2 is enough fuel are evaluated on every correspondence "
+            "input, not proved; idempotence of the whole formatter follows from the round trip only together with 'format depends on "
+            "lines through their inner text', which is proved for lines but not yet lifted to the whole AST; non-ASCII identifiers and "
+            "the validator (equal errors and warnings: oracle only) are not modelled.",
     "design_ref": "DESIGN.md section 6 C18, section 10",
-    "technique": "Lean 4 proofs over executable PEG-parser and formatter models + differential correspondence against the real parser and formatter",
+    "technique": "Lean 4 proofs (print/parse round trip) over executable PEG-parser and formatter models + differential correspondence against the real parser and formatter",
 }
 
 NOT_APPLICABLE = {
